@@ -1,7 +1,9 @@
 package storage
 
 import (
+	"bytes"
 	"context"
+	"io"
 	"os"
 
 	"github.com/ipfs/go-cid"
@@ -32,7 +34,8 @@ func VerifH_C08_StorageRaces() {
 	root := vCidID("root")
 	f, err := os.OpenFile(vFSPath("c08s.car"), os.O_RDWR|os.O_CREATE, 0o666)
 	vAssert("file", err == nil)
-	sc, err := NewReadableWritable(f, []cid.Cid{root}, carv2.UseWholeCIDs(vBool("useWholeCIDs")), carv2.WriteAsCarV1(vBool("writeAsCarV1")))
+	useWhole := vBool("useWholeCIDs")
+	sc, err := NewReadableWritable(f, []cid.Cid{root}, carv2.UseWholeCIDs(useWhole), carv2.WriteAsCarV1(vBool("writeAsCarV1")))
 	vAssert("open", err == nil)
 	first := vValidBlockT("first", 1)
 	vAssume(!vIsIdentity(first.c))
@@ -40,6 +43,12 @@ func VerifH_C08_StorageRaces() {
 	e1 := vValidBlockT("e1", 1)
 	e2 := vValidBlockT("e2", 1)
 	vAssume(!vIsIdentity(e1.c) && !vIsIdentity(e2.c))
+	scenario := "storage"
+	if vChoose("sameBlock", 2) == 1 {
+		e2 = e1 // both calls concern one block: de-duplication must hold across them
+		scenario = "storage-same-block"
+	}
+	vNoCollisions([]vEntry{first, e1, e2})
 	opA := vChoose("opA", 5)
 	opB := vChoose("opB", 5)
 	vAssume(opA <= opB)
@@ -58,7 +67,40 @@ func VerifH_C08_StorageRaces() {
 			func() { vSCOp(sc, opB, e2, first.c) },
 		)
 	}
-	vRaceCheck("storage")
+	opNames := []string{"put", "has", "get", "roots", "finalize"}
+	vRaceCheck(scenario + "-" + opNames[opA] + "-" + opNames[opB])
+	// sequential-consistency of the outcome, whatever the schedule was: after a final Finalize the
+	// file is a well-formed archive that holds the seed block and each distinct block at most once
+	// (checked symbolically for the engine's schedule, and by the stress replays of schedule-
+	// dependent counterexamples natively)
+	sc.Finalize()
+	img, ok := vFSReadFile(vFSPath("c08s.car"))
+	vAssert("file-readable", ok)
+	br, berr := carv2.NewBlockReader(bytes.NewReader(img))
+	vAssert("outcome-is-an-archive", berr == nil)
+	var seen []cid.Cid
+	foundFirst := false
+	for i := 0; i < 5; i++ {
+		blk, err := br.Next()
+		if err == io.EOF {
+			break
+		}
+		vAssert("outcome-sections-intact", err == nil)
+		for _, s := range seen {
+			// the de-duplication key is the multihash, or the whole CID with UseWholeCIDs
+			same := vBytesEq(s.Hash(), blk.Cid().Hash())
+			if useWhole {
+				same = s.Equals(blk.Cid())
+			}
+			vAssert("each-distinct-block-once", !same)
+		}
+		seen = append(seen, blk.Cid())
+		if blk.Cid().Equals(first.c) {
+			foundFirst = true
+		}
+	}
+	vAssert("seed-block-kept", foundFirst)
+	vAssert("at-most-three-sections", len(seen) <= 3)
 	vCover("put-vs-put", opA == 0 && opB == 0)
 	vCover("get-vs-finalize", opA == 2 && opB == 4)
 }
